@@ -122,7 +122,10 @@ def _helper_shapes(tier):
            dict(p=2, mult=[1], mode='knot_list1', d=1), dict(p=3, mult=[], mode='knot_list1', d=2),     # a single listed knot
            dict(p=1, mult=[1], mode='knot_list', d=2),
            dict(p=3, mult=[], mode='knot_list', d=1),
-           dict(p=2, mult=[2], mode='default', d=1)]
+           dict(p=2, mult=[2], mode='default', d=1),
+           # the knot vector handed over as a tuple; an explicit knot_list (kept by the caller) together with add_knot_list
+           dict(p=2, mult=[], mode='add_knot_list', d=1, kvtype='tuple'),
+           dict(p=2, mult=[1], mode='knot_list+add', d=1)]
     if tier == 'thorough':
         out += [dict(p=3, mult=[1], mode='knot_list', d=1),
                 dict(p=3, mult=[2], mode='add_knot_list', d=1),
@@ -132,7 +135,7 @@ def _helper_shapes(tier):
 
 @scenario('C05', fns=['helpers.knot_refinement', 'helpers.find_multiplicity', 'helpers.find_span_linear'],
           quick=lambda: _helper_shapes('quick'), thorough=lambda: _helper_shapes('thorough'))
-def helper_refine(ctx, p, mult, mode, d):
+def helper_refine(ctx, p, mult, mode, d, kvtype='list'):
     """helpers.knot_refinement with an explicit knot_list [a, b] (a < b in the open domain, each equal to a knot or
     farther than 1e-7 from every knot) or add_knot_list [a] on top of the default list.
     ensures: the returned (ctrlpts, kv) define the same curve (spec evaluation of both); kv == the original knots with
@@ -152,6 +155,13 @@ def helper_refine(ctx, p, mult, mode, d):
         ctx.assume(ctx.gt(b - a, TOL * 2 ** d))
         listed = bisect([a, b], d)
         kw['knot_list'] = [a, b]
+    elif mode == 'knot_list+add':
+        b = shapes.param_in(ctx, 'b', lo, hi, open_lo=True, open_hi=True)
+        ctx.assume(ctx.gt(b - a, TOL * 2 ** d))
+        listed = bisect([a, b], d)
+        kept = [a]
+        kw['knot_list'] = kept
+        kw['add_knot_list'] = (b,)
     elif mode == 'add_knot_list':
         listed = None
         kw['add_knot_list'] = [a]
@@ -177,7 +187,15 @@ def helper_refine(ctx, p, mult, mode, d):
     for x in listed:
         for k in [lo] + list(inner) + [hi]:
             ctx.assume(ctx.sep(x, k, TOL))
-    new_P, new_U = hp.knot_refinement(p, list(U), [list(q) for q in P], **kw)
+    new_P, new_U = hp.knot_refinement(p, tuple(U) if kvtype == 'tuple' else list(U), [list(q) for q in P], **kw)
+    if mode == 'knot_list+add':
+        # the same list object used again WITHOUT additional knots: that call refines the listed knot alone
+        P2, U2 = hp.knot_refinement(p, list(U), [list(q) for q in P], knot_list=kept, density=d)
+        want2, m2 = list(U), n
+        s2 = sum(1 for k in want2 if k == a)
+        if s2 < p:
+            want2 = spec.insert_sorted(want2, a, p - s2, spec.span_spec(p, want2, m2, a))
+        ctx.check_eq_vec('second_call_with_the_same_knot_list.kv', U2, want2)
     # the refined knot vector by definition: the original knots, and every listed knot raised to multiplicity p
     want_U, m = list(U), n
     for x in listed:
